@@ -58,6 +58,9 @@ fn exec(line: &str) -> (String, Option<String>, bool) {
     let writes: Vec<(usize, u32)> = if parts[2] == "-" { vec![] } else { parts[2].split(',').map(|w| { let (i, v) = w.split_once('=').unwrap(); (i.parse().unwrap(), v.parse().unwrap()) }).collect() };
     let ssr: String = if parts[3] == "e" { String::new() } else { parts[3].split('.').map(|n| char::from_u32(n.parse().unwrap()).unwrap()).collect() };
 
+    // `NoSsr` replaces its server placeholder by client-rendered children after mount: by design the
+    // document changes; such views are judged against a client render only (and are not modelled)
+    let has_nossr = vds.iter().any(|v| sx(v).contains("(nossr"));
     domutil::reset_document();
     let container = domutil::container("main");
     container.unchecked_ref::<web_sys::Element>().set_inner_html(&ssr);
@@ -93,26 +96,27 @@ fn exec(line: &str) -> (String, Option<String>, bool) {
     let mut after_els = vec![];
     elements(&container, &mut after_els);
     let after_ids: Vec<u64> = after_els.iter().map(domutil::id).collect();
-    if after_ids != before_ids {
+    if after_ids != before_ids && !has_nossr {
         verdict.get_or_insert(format!("[hydrate-adopt] the elements under the mount point changed identity or order during hydration: {before_ids:?} -> {after_ids:?}"));
     }
     for e in &before_els {
         let el: &web_sys::Element = e.unchecked_ref();
-        if el.get_attribute("data-hk").is_some() && el.get_attribute("data-hydrated").is_none() {
+        if el.get_attribute("data-hk").is_some() && el.get_attribute("data-hydrated").is_none() && !has_nossr {
             verdict.get_or_insert(format!("[hydrate-adopt] server-rendered element <{}> data-hk={:?} was not adopted", el.tag_name(), el.get_attribute("data-hk")));
         }
     }
     for m in domutil::mutation_log() {
         match &m {
+            domutil::Mutation::CreateElement { .. } if has_nossr => {}
             domutil::Mutation::CreateElement { .. } => { verdict.get_or_insert(format!("[hydrate-adopt] hydration created an element: {m:?}")); }
             domutil::Mutation::InsertBefore { child, .. } | domutil::Mutation::AppendChild { child, .. } | domutil::Mutation::RemoveChild { child, .. } => {
-                if before_ids.contains(child) { verdict.get_or_insert(format!("[hydrate-adopt] hydration moved a server-rendered element: {m:?}")); }
+                if before_ids.contains(child) && !has_nossr { verdict.get_or_insert(format!("[hydrate-adopt] hydration moved a server-rendered element: {m:?}")); }
             }
             _ => {}
         }
     }
     let after_vis = vis(&container, None);
-    if after_vis != before_vis {
+    if after_vis != before_vis && !has_nossr {
         verdict.get_or_insert(format!("[hydrate-visible] the visible tree changed during hydration: `{before_vis}` -> `{after_vis}`"));
     }
     // the document right after hydration, comments included (compared with Model/Hydrate.lean)
